@@ -408,12 +408,15 @@ pub fn replay(ctx: &Ctx, v: &Value) -> Option<Value> {
 // ---------------------------------------------------------------------------
 // generated families: a structured needle and a haystack tile, both scaled by 1, 4 and 16
 
-/// A generated family violates the bound when, at some scale k in {4, 16, 64}, the cost per byte of
-/// (n+m) is at least CAP and at least GROW times the cost per byte at scale 1. On the unchanged tree the
-/// cost per byte saturates below 6 steps whatever the input (a change of regime - adaptive prefilter
-/// going inert, vector searcher vs Two-Way - moves it between ~0.05 and ~5); a term in n*m keeps growing.
+/// A generated family violates the bound when its cost per byte of (n+m) keeps growing over two
+/// consecutive x4 scale steps and ends at CAP or more (see `growth_trend`). On the unchanged tree the cost
+/// per byte of almost every instance lies between ~0.05 and ~5 (regime changes - adaptive prefilter going
+/// inert, vector searcher vs Two-Way - move it within that band, which is why growth below CAP is not
+/// judged), single instances reach 12; a term in n*m keeps growing by x4 per step.
 pub const CAP: f64 = 12.0;
-pub const GROW: f64 = 3.0;
+/// growth of the cost per byte over ONE x4 scale step that counts as "growing" (a term in n*m gives 4,
+/// n*sqrt(m) gives 2); the trend must hold over TWO consecutive steps (scales k, 4k, 16k)
+pub const GROW: f64 = 1.8;
 pub const GROW_MIN_STEPS: u64 = 60_000;
 
 fn scaled(spec: &NeedleSpec, pieces: &[Piece], base_n: usize, k: usize) -> (Vec<u8>, Vec<u8>) {
@@ -443,6 +446,21 @@ fn scaled(spec: &NeedleSpec, pieces: &[Piece], base_n: usize, k: usize) -> (Vec<
         hay.truncate(total);
     }
     (needle, hay)
+}
+
+/// The trend criterion for generated families. `c[i]` = cost per byte at `scales[i]` (x4 apart), `stp[i]` = steps.
+/// A violation is a SUSTAINED growth: for some i, c[i+1] >= GROW*c[i] and c[i+2] >= GROW*c[i+1], ending at
+/// or above CAP steps per byte with at least GROW_MIN_STEPS steps. One expensive instance is not a trend:
+/// the needle of every scale is a new instance of its family, and the crate's constant legitimately
+/// depends on the instance (on the unchanged tree a single instance reached 12.15 steps per byte between
+/// two instances at ~1: the portable prefilter re-scans up to index1 <= 254 bytes per call).
+fn growth_trend(c: &[f64], stp: &[u64]) -> Option<usize> {
+    for i in 0..c.len().saturating_sub(2) {
+        if c[i + 2] >= CAP && stp[i + 2] >= GROW_MIN_STEPS && c[i + 1] >= GROW * c[i] && c[i + 2] >= GROW * c[i + 1] {
+            return Some(i + 2);
+        }
+    }
+    None
 }
 
 fn gen_json(spec: &NeedleSpec, pieces: &[Piece], base_n: usize) -> Value {
@@ -478,19 +496,36 @@ fn parse_piece(s: &str) -> Option<Piece> {
 
 /// Re-judge one generated family (replay).
 fn judge_generated(ctx: &Ctx, spec: &NeedleSpec, pieces: &[Piece], base_n: usize, op: u8) -> Option<Value> {
-    let scales: Vec<usize> = if base_n <= 4096 && spec.len <= 128 { vec![1, 4, 16, 64] } else { vec![1, 4, 16] };
+    let trace = std::env::var("MV_STEPS_TRACE").is_ok();
+    let scales: Vec<usize> = if trace { vec![1, 2, 4, 8, 16, 32, 64] } else if base_n <= 4096 && spec.len <= 128 { vec![1, 4, 16, 64] } else { vec![1, 4, 16] };
     let mut c: Vec<f64> = Vec::new();
+    let mut stp: Vec<u64> = Vec::new();
     for k in scales.iter() {
         let (needle, hay) = scaled(spec, pieces, base_n, *k);
         let (steps, _) = measure(op, &needle, &hay);
         let nm = (needle.len() + hay.len()) as u64;
         let ck = steps as f64 / nm as f64;
         c.push(ck);
+        if trace {
+            steps_reset();
+            let f = Finder::new(&needle);
+            let cons = self::steps();
+            steps_reset();
+            let cnt = f.find_iter(&hay).count();
+            let it = self::steps();
+            let f2 = memchr::memmem::FinderBuilder::new().prefilter(memchr::memmem::Prefilter::None).build_forward(&needle);
+            steps_reset();
+            let _ = f2.find_iter(&hay).count();
+            let nopre = self::steps();
+            eprintln!("trace: scale {} n {} m {} steps {} per byte {:.2}; construction {} find_iter {} ({} matches) find_iter without prefilter {}", k, hay.len(), needle.len(), steps, ck, cons, it, cnt, nopre);
+            continue;
+        }
         if steps > A * nm + B {
             return Some(step_viol(ctx, &format!("{} steps for n+m = {} ({:.1} per byte) exceeds {}*(n+m)+{}", steps, nm, ck, A, B), 255, op, hay.len(), needle.len(), 0, &needle, &hay, json!({"gen": gen_json(spec, pieces, base_n)})));
         }
-        if *k > 1 && steps >= GROW_MIN_STEPS && ck >= CAP && ck >= GROW * c[0] {
-            return Some(step_viol(ctx, &format!("cost per byte grows with the input: {:?} steps per byte at scales {:?}", c, &scales[..c.len()]), 255, op, hay.len(), needle.len(), 0, &needle, &hay, json!({"gen": gen_json(spec, pieces, base_n)})));
+        stp.push(steps);
+        if let Some(_) = growth_trend(&c, &stp) {
+            return Some(step_viol(ctx, &format!("cost per byte keeps growing with the input: {:?} steps per byte at scales {:?} (x{} or more per x4 step, twice in a row, reaching {} per byte)", c.iter().map(|x| (x * 100.0).round() / 100.0).collect::<Vec<_>>(), &scales[..c.len()], GROW, CAP), 255, op, hay.len(), needle.len(), 0, &needle, &hay, json!({"gen": gen_json(spec, pieces, base_n)})));
         }
     }
     None
@@ -508,8 +543,10 @@ pub fn steps_generic(ctx: &Ctx) -> Frag {
         max_min_ratio: f64,
         at: String,
         max_per_byte: f64,
+        closest: f64,
+        closest_at: String,
     }
-    let st = RefCell::new(St { frag, failed: None, max_min_ratio: 0.0, at: String::new(), max_per_byte: 0.0 });
+    let st = RefCell::new(St { frag, failed: None, max_min_ratio: 0.0, at: String::new(), max_per_byte: 0.0, closest: 0.0, closest_at: String::new() });
     let strat = (
         subgen::needle_spec(),
         65usize..=256,
@@ -541,9 +578,20 @@ pub fn steps_generic(ctx: &Ctx) -> Frag {
                 bad = Some(step_viol(ctx, &format!("{} steps for n+m = {} ({:.1} per byte) exceeds {}*(n+m)+{}", steps, nm, ck, A, B), 255, op, hay.len(), needle.len(), 0, &needle, &hay,
                     json!({"steps": steps, "gen": gen_json(&spec, &pieces, base_n), "scale": k})));
             }
-            if *k > 1 && steps >= GROW_MIN_STEPS && ck >= CAP && ck >= GROW * c[0] && bad.is_none() {
-                bad = Some(step_viol(ctx, &format!("cost per byte grows with the input: {:?} steps per byte at scales {:?} of (n = {}, m = {}) (bounded cost saturates below {})", c.iter().map(|x| (x * 100.0).round() / 100.0).collect::<Vec<_>>(), &scales[..c.len()], base_n, len, CAP),
+            if bad.is_none() && growth_trend(&c, &stp).is_some() {
+                bad = Some(step_viol(ctx, &format!("cost per byte keeps growing with the input: {:?} steps per byte at scales {:?} of (n = {}, m = {}) (x{} or more per x4 step, twice in a row, reaching {} per byte)", c.iter().map(|x| (x * 100.0).round() / 100.0).collect::<Vec<_>>(), &scales[..c.len()], base_n, len, GROW, CAP),
                     255, op, hay.len(), needle.len(), 0, &needle, &hay, json!({"gen": gen_json(&spec, &pieces, base_n), "steps": stp.clone(), "scale": k})));
+            }
+        }
+        // how close the unchanged tree comes to the trend criterion: the smaller of the two growth factors
+        // of any window that ends at half the cap or more
+        for i in 0..c.len().saturating_sub(2) {
+            if c[i + 2] >= CAP / 2.0 && c[i] > 0.0 && c[i + 1] > 0.0 {
+                let g = (c[i + 1] / c[i]).min(c[i + 2] / c[i + 1]);
+                if g > s.closest {
+                    s.closest = g;
+                    s.closest_at = format!("{:?} (kind {} len {} base_n {})", c, subgen::NEEDLE_KINDS[spec.kind as usize], len, base_n);
+                }
             }
         }
         let last = c.len() - 1;
@@ -583,6 +631,7 @@ pub fn steps_generic(ctx: &Ctx) -> Frag {
     s.frag.require(&["growth evaluated (>= 60000 steps at the largest scale)"]);
     s.frag.extra.insert("max_steps_per_byte_at_largest_scale".into(), json!(s.max_min_ratio));
     s.frag.extra.insert("max_steps_per_byte".into(), json!(s.max_per_byte));
-    s.frag.notes.push(format!("generated families: largest cost per byte at the largest scale = {:.2} ({}); a violation needs >= {} per byte and >= {}x the cost at scale 1", s.max_min_ratio, s.at, CAP, GROW));
+    s.frag.extra.insert("closest_to_growth_trend".into(), json!({"smaller_growth_factor_of_a_window_ending_at_half_the_cap": s.closest, "at": s.closest_at}));
+    s.frag.notes.push(format!("generated families: largest cost per byte at the largest scale = {:.2} ({}); a violation needs growth by >= x{} over two consecutive x4 steps ending at >= {} per byte", s.max_min_ratio, s.at, GROW, CAP));
     s.frag
 }
